@@ -236,6 +236,7 @@ def streams_for(prop, seed, tier, boost=1):
     elif prop in ('C06', 'C14'):
         add('table', G('table').table_stream(n_tables=12 * k))
         add('split-ambiguity', genmod.split_ambiguity_stream())
+        add('huffman-expanding-near-table-size', genmod.huffman_expanding_table_stream())
         add('table-big', big_table_stream())
         add('table-long-history', genmod.big_history_table_stream(4300))
         add('enc-failing', genmod.enc_fail_stream(G('ef'), n=15 * k))
@@ -272,6 +273,7 @@ def streams_for(prop, seed, tier, boost=1):
         add('failed-then-fresh', genmod.failed_then_fresh_stream())
         add('limits-interleaved', genmod.limit_interleaved_stream())
         add('utf8-tails', genmod.utf8_tail_stream()[0])
+        add('huffman-expanding-near-table-size', genmod.huffman_expanding_table_stream())
     elif prop in ('C04', 'C05'):
         add('deccat', G('deccat').dec_catalogue())
         add('dec-mal', G('dec').dec_stream(n_conn=60 * k, mal=0.55))
@@ -344,6 +346,7 @@ def streams_for(prop, seed, tier, boost=1):
         add('conn-text', G('conntext').conn_text_stream(n_conn=15 * k))
         add('enc-sizes', genmod.enc_size_stream(G('es'), n=25 * k))
         add('split-ambiguity', genmod.split_ambiguity_stream())
+        add('huffman-expanding-near-table-size', genmod.huffman_expanding_table_stream())
         add('conn-evict', evict_stream(G('ev'), 12 * k))
         add('api-forms-conn', genmod.api_forms_conn_stream(G('af'), n=20 * k))
         add('enc-big-tables', genmod.big_table_encoder_stream(G('bt')))
